@@ -594,7 +594,15 @@ pub(crate) fn c20_oracle(c: &HistCase, st: &mut Stats) -> Verdict {
         Ok(s) => s,
         Err(cg) => fail!(format!("C20:{name}:panic:calculate_size"), "calculate_size after the history panicked: {}", cg.message),
     };
-    ensure!(hsize == csize, format!("C20:{name}:size-or-error-differs"), "through the history: {hsize:?}; canonical construction: {csize:?}");
+    // sizes must be equal; for an unrepresentable final configuration both paths must fail, but WHICH of the
+    // violated rules each names is C16's latitude ("one of the violated rules"), not a matter of the call sequence
+    let same = match (&hsize, &csize) {
+        (Ok(a), Ok(b)) => a == b,
+        (Err(_), Err(_)) => true,
+        _ => false,
+    };
+    st.label_if(matches!((&hsize, &csize), (Err(a), Err(b)) if a != b), "both paths fail, naming different violated rules");
+    ensure!(same, format!("C20:{name}:size-or-error-differs"), "through the history: {hsize:?}; canonical construction: {csize:?}");
     if let Ok(n) = csize {
         let cbytes = match canon.writes.first() {
             Some(w) if w.result == Ok(Ok(n)) => &w.after,
